@@ -1,0 +1,28 @@
+//go:build !verif
+
+package http2
+
+// Verification hooks (see verif_on.go). Without the "verif" build tag every
+// hook is an empty function the compiler inlines away.
+
+const verifEnabled = false
+
+type verifServer struct{}
+
+func (*verifServer) register(*serverConn)                  {}
+func (*verifServer) ev(int)                                {}
+func (*verifServer) busy()                                 {}
+func (*verifServer) idle(Streams, int, int, int, int, int) {}
+
+type verifClient struct{}
+
+func (*verifClient) register(*Conn) {}
+func (*verifClient) ev(int)         {}
+func (*verifClient) busy()          {}
+func (*verifClient) idle()          {}
+func (*verifClient) winSignal()     {}
+func (*verifClient) winTaken()      {}
+
+func verifPool(int, bool, interface{}) {}
+
+func verifAcquireHeaderField() *HeaderField { return nil }
